@@ -349,7 +349,19 @@ func rulesC20(c *Ctx) {
 					return false
 				}
 				_, isIdx := p.fieldSel(x.E, es+".idx")
-				return isIdx && strings.Contains(p.Src(y.E), "len(es.events)")
+				if !isIdx {
+					return false
+				}
+				isEvents := false
+				ast.Inspect(y.E, func(m ast.Node) bool {
+					if lc, isCall := m.(*ast.CallExpr); isCall && len(lc.Args) == 1 && p.Src(lc.Fun) == "len" {
+						if _, isEv := p.fieldSel(lc.Args[0], es+".events"); isEv {
+							isEvents = true
+						}
+					}
+					return true
+				})
+				return isEvents
 			}))
 			c.Check("C20.d", "store index bounded", as, atIdx && bounded, "events[%s] is written without the fact idx != len(events) (idx only grows by one per store, so != is a bound): a full store would panic or overwrite; facts: %v", p.Src(ix.Index), p.FactStrings(st))
 			inc := p.FollowedByIncOf(fn, as, es+".idx")
@@ -586,7 +598,8 @@ func rulesC20(c *Ctx) {
 		ast.Inspect(fn.Decl.Body, func(n ast.Node) bool {
 			switch x := n.(type) {
 			case *ast.RangeStmt:
-				if id, ok := unparen(x.X).(*ast.Ident); ok && id.Name == "history" {
+				// the range over the history snapshot: a local that holds the result of GetRecentEvents
+				if p.identIn(x.X, p.assignedFrom(fn, rb+".GetRecentEvents")) {
 					rng = x
 				}
 			case *ast.ForStmt:
